@@ -10,11 +10,14 @@ package props
 import (
 	"bytes"
 	"context"
+	"database/sql"
 	"fmt"
+	"github.com/superfly/ltx"
 	"os"
 	"path/filepath"
 	"sync"
 	"testing"
+	"time"
 
 	"github.com/benbjohnson/litestream"
 	"github.com/benbjohnson/litestream/file"
@@ -27,19 +30,19 @@ import (
 )
 
 type c10Damage struct {
-	Kind string `json:"kind"` // truncate | flip | delete | readfault | exists | tmp-exists | integrity
-	File int    `json:"file,omitempty"`
-	Off  int    `json:"off,omitempty"`
-	Bit  int    `json:"bit,omitempty"`
-	InPlan bool `json:"in_plan,omitempty"`
-	Plan []inject.Fault `json:"plan,omitempty"`
-	Integrity int `json:"integrity,omitempty"`
+	Kind      string         `json:"kind"` // truncate | flip | delete | readfault | exists | tmp-exists | integrity | image
+	File      int            `json:"file,omitempty"`
+	Off       int            `json:"off,omitempty"`
+	Bit       int            `json:"bit,omitempty"`
+	InPlan    bool           `json:"in_plan,omitempty"`
+	Plan      []inject.Fault `json:"plan,omitempty"`
+	Integrity int            `json:"integrity,omitempty"`
 }
 
 type c10Case struct {
-	Hist    lsw.Case    `json:"hist"`
-	Scribble bool       `json:"scribble,omitempty"` // corrupt a b-tree page of the source before the first sync
-	Damages []c10Damage `json:"damages"`
+	Hist     lsw.Case    `json:"hist"`
+	Scribble bool        `json:"scribble,omitempty"` // corrupt a b-tree page of the source before the first sync
+	Damages  []c10Damage `json:"damages"`
 }
 
 var (
@@ -115,10 +118,15 @@ func genC10(t *rapid.T) c10Case {
 			d.Plan = append(d.Plan, inject.Fault{}, inject.Fault{}, inject.Fault{}, inject.Fault{}, inject.Fault{}, inject.Fault{}, inject.Fault{}, inject.Fault{})
 		case r < 92:
 			d.Kind = "exists"
-		case r < 96:
+		case r < 94:
 			d.Kind = "tmp-exists"
-		default:
+		case r < 97:
 			d.Kind = "integrity"
+			d.Integrity = rapid.IntRange(0, 2).Draw(t, "integrity")
+		default:
+			// an intact replica (every checksum passes) of a database image that is damaged inside: junk written into
+			// the file header, the schema page, or any other page, restored with a requested integrity check
+			d.Kind = "image"
 			d.Integrity = rapid.IntRange(0, 2).Draw(t, "integrity")
 		}
 		d.File = rapid.IntRange(0, 1<<16).Draw(t, "file")
@@ -270,6 +278,8 @@ func runC10Damage(w *lsw.World, d c10Damage, di int, B []byte, planFiles, otherF
 	cmd := map[string]any{"op": "restore", "replica": rep, "out": out}
 	var preExisting []byte
 	var altB []byte
+	imageBad := false
+	var imageBytes []byte
 	switch d.Kind {
 	case "truncate", "flip", "delete":
 		f := pick[d.File%len(pick)]
@@ -341,6 +351,38 @@ func runC10Damage(w *lsw.World, d c10Damage, di int, B []byte, planFiles, otherF
 	case "tmp-exists":
 		_ = os.WriteFile(out+".tmp", []byte("stale temp file"), 0o644)
 		nontrivial = true
+	case "image":
+		// replace the copied replica by a single snapshot file that encodes a damaged copy of the restored image
+		ps := w.Cfg.PageSize
+		img := append([]byte(nil), B...)
+		if len(img) < 2*ps {
+			return nil, label, false
+		}
+		var at int
+		switch d.File % 4 {
+		case 0:
+			at = 0 // file header ("file is not a database")
+		case 1:
+			at = 100 // b-tree header of the schema page ("malformed")
+		default:
+			at = (1+d.Off%(len(img)/ps-1))*ps + 0 // first bytes of some other page
+		}
+		copy(img[at:], bytes.Repeat([]byte{0xA5}, 48))
+		_ = os.RemoveAll(rep)
+		l9 := filepath.Join(rep, "ltx", "9")
+		_ = os.MkdirAll(l9, 0o755)
+		if err := c10EncodeImage(filepath.Join(l9, ltx.FormatFilename(1, 1)), img, ps); err != nil {
+			panic(fmt.Sprintf("harness: encode image: %v", err))
+		}
+		cmd["integrity"] = d.Integrity
+		imageBad = c10ImageFails(dir, img, d.Integrity)
+		imageBytes = img
+		desc = fmt.Sprintf("intact replica of an image with junk at byte %d, integrity mode %d (own check fails: %v)", at, d.Integrity, imageBad)
+		nontrivial = imageBad
+		label += fmt.Sprintf(":mode%d", d.Integrity)
+		if imageBad {
+			label += ":bad"
+		}
 	case "integrity":
 		cmd["integrity"] = d.Integrity
 		desc = fmt.Sprintf("integrity mode %d scribbled=%v", d.Integrity, scribbled)
@@ -376,6 +418,15 @@ func runC10Damage(w *lsw.World, d c10Damage, di int, B []byte, planFiles, otherF
 		if d.Kind == "integrity" && scribbled && d.Integrity != 0 {
 			return fail("integrity-not-enforced", "restore returned nil although the restored database fails the requested integrity check")
 		}
+		if d.Kind == "image" {
+			if imageBad {
+				return fail("integrity-not-enforced", "restore returned nil although the restored image fails the requested integrity check (%s)", desc)
+			}
+			if !bytes.Equal(got, imageBytes) {
+				return fail("silent-wrong-restore", "restore returned nil but the output differs from the replicated image (%s)", desc)
+			}
+			return nil, label + ":ok", nontrivial
+		}
 		if altB != nil && bytes.Equal(got, altB) {
 			return nil, label + ":ok-shorter-chain", nontrivial
 		}
@@ -392,6 +443,65 @@ func runC10Damage(w *lsw.World, d c10Damage, di int, B []byte, planFiles, otherF
 		return fail("partial-output", "restore failed (%s) but left a file of %d bytes at the output path", r.Err, len(got))
 	}
 	return nil, label + ":error", nontrivial
+}
+
+// c10EncodeImage writes img as one LTX snapshot file (TXID 1-1).
+func c10EncodeImage(path string, img []byte, ps int) error {
+	f, err := os.Create(path)
+	if err != nil {
+		return err
+	}
+	defer f.Close()
+	enc, err := ltx.NewEncoder(f)
+	if err != nil {
+		return err
+	}
+	commit := uint32(len(img) / ps)
+	if err := enc.EncodeHeader(ltx.Header{Version: ltx.Version, Flags: ltx.HeaderFlagNoChecksum, PageSize: uint32(ps), Commit: commit, MinTXID: 1, MaxTXID: 1, Timestamp: time.Now().UnixMilli()}); err != nil {
+		return err
+	}
+	lock := ltx.LockPgno(uint32(ps))
+	for pg := uint32(1); pg <= commit; pg++ {
+		if pg == lock {
+			continue
+		}
+		if err := enc.EncodePage(ltx.PageHeader{Pgno: pg}, img[int(pg-1)*ps:int(pg)*ps]); err != nil {
+			return err
+		}
+	}
+	if err := enc.Close(); err != nil {
+		return err
+	}
+	return f.Sync()
+}
+
+// c10ImageFails runs the requested check with the harness's own SQLite connection on a scratch copy of the image:
+// true when the PRAGMA errors or returns anything but "ok" (mode 0: never).
+func c10ImageFails(dir string, img []byte, mode int) bool {
+	if mode == 0 {
+		return false
+	}
+	p := filepath.Join(dir, "imgcheck.db")
+	_ = os.WriteFile(p, img, 0o644)
+	defer func() {
+		os.Remove(p)
+		os.Remove(p + "-wal")
+		os.Remove(p + "-shm")
+	}()
+	db, err := sql.Open("sqlite", p)
+	if err != nil {
+		return true
+	}
+	defer db.Close()
+	pragma := "quick_check"
+	if mode == 2 {
+		pragma = "integrity_check"
+	}
+	var res string
+	if err := db.QueryRow("PRAGMA " + pragma).Scan(&res); err != nil {
+		return true
+	}
+	return res != "ok"
 }
 
 func TestProp_C10(t *testing.T) {
